@@ -176,6 +176,39 @@ Check (C10_dial_success :
          | Some e => Some (error_score k e)
          | None => find b s
          end).
+Check (C10_dial_mixed_outcome :
+  forall k s peer before l j after a e0 b,
+  NoDup (keys s) -> NoDup (map fst (before ++ l ++ after)) ->
+  (forall x, In x (map fst (before ++ l ++ after)) -> In x (keys s)) ->
+  nth_error l j = Some (a, e0) -> names peer a = true ->
+  (forall e, error_score k e <> 0%Z) -> sc_established k <> 0%Z ->
+  find b (mixed_outcome k s peer before l j after) =
+    if maddr_eqb b a then Some (sc_established k)
+    else match lookup_err b (before ++ firstn j l ++ after) with
+         | Some e => Some (error_score k e)
+         | None => find b s
+         end).
+Check (C10_dial_outcome_is_mixed :
+  forall k s peer j0 errs tcp ws qu,
+  NoDup (tcp ++ ws ++ qu) -> (0 < length tcp + length ws + length qu)%nat ->
+  exists before l j after,
+    dial_outcome k s peer (S j0) errs tcp ws qu = mixed_outcome k s peer before l j after /\
+    NoDup (map fst (before ++ l ++ after)) /\
+    (forall x, In x (map fst (before ++ l ++ after)) -> In x (tcp ++ ws ++ qu)) /\
+    (forall x, In x (before ++ l ++ after) -> In x (attempts errs tcp ws qu)) /\
+    (j < length l)%nat /\
+    (l = tag_errs errs 0 tcp \/ l = tag_errs errs (length tcp) ws \/
+     l = tag_errs errs (length tcp + length ws) qu)).
+Check (C10_dial_first_transport_failure_counts :
+  forall k s peer errs a w ws b,
+  NoDup (keys s) -> NoDup (a :: w :: ws) -> (forall x, In x (a :: w :: ws) -> In x (keys s)) ->
+  names peer w = true -> (forall e, error_score k e <> 0%Z) -> sc_established k <> 0%Z ->
+  (* outcome: position 1 (the first WebSocket address) wins, first other transport (TCP) reports
+     its failure before the ConnectionOpened event: j0 = 1 + n * 1 with n = 2 + |ws| *)
+  find b (dial_outcome k s peer (S (3 + length ws)) errs [a] (w :: ws) []) =
+    if maddr_eqb b w then Some (sc_established k)
+    else if maddr_eqb a b then Some (error_score k (err_at errs 0))
+    else find b s).
 Check (C10_error_variants_in_sync :
   ErrNames.model_variants = DialErrors.variants /\ ErrNames.model_gates = DialErrors.gates).
 Check (C10_store_sites_in_sync :
